@@ -20,7 +20,7 @@ use std::path::PathBuf;
 use std::sync::atomic::{AtomicUsize, Ordering};
 use zipora::blob_store::cached_store::CacheWriteStrategy;
 use zipora::blob_store::{
-    BatchBlobStore, BatchZipOffsetBlobStoreBuilder, BlobStore, CachedBlobStore, CompressedBlobStore, DictZipBlobStore,
+    IterableBlobStore, BatchBlobStore, BatchZipOffsetBlobStoreBuilder, BlobStore, CachedBlobStore, CompressedBlobStore, DictZipBlobStore,
     DictZipBlobStoreBuilder, DictZipConfig, DictionaryBlobStore, HuffmanBlobStore, MemoryBlobStore, MixedLenBlobStore,
     NestLoudsTrieBlobStore, NestLoudsTrieBlobStoreBuilder, PlainBlobStore, RansBlobStore, SimpleZipBlobStore, SimpleZipConfig,
     SortedUintVecConfig, TrieBlobStoreConfig, ZeroLengthBlobStore, ZipOffsetBlobStore, ZipOffsetBlobStoreBuilder,
@@ -47,6 +47,15 @@ trait Store {
         None
     }
     fn remove(&mut self, id: u32) -> R<()>;
+    fn get_batch(&self, _ids: Vec<u32>) -> Option<R<Vec<Option<Vec<u8>>>>> {
+        None
+    }
+    fn remove_batch(&mut self, _ids: Vec<u32>) -> Option<R<usize>> {
+        None
+    }
+    fn iter_ids(&self) -> Option<Vec<u32>> {
+        None
+    }
     fn contains(&self, id: u32) -> bool;
     fn size(&self, id: u32) -> R<Option<usize>>;
     fn len(&self) -> usize;
@@ -96,6 +105,9 @@ impl Drop for TmpDir {
 struct W<S: BlobStore> {
     s: S,
     batch: Option<fn(&mut S, Vec<Vec<u8>>) -> R<Vec<u32>>>,
+    getb: Option<fn(&S, Vec<u32>) -> R<Vec<Option<Vec<u8>>>>>,
+    rmb: Option<fn(&mut S, Vec<u32>) -> R<usize>>,
+    iter: Option<fn(&S) -> Vec<u32>>,
     stored: Option<fn(&S, u32) -> Option<usize>>,
     clear: Option<fn(&mut S)>,
     reload: Option<fn(&S) -> R<S>>,
@@ -103,11 +115,7 @@ struct W<S: BlobStore> {
 }
 impl<S: BlobStore> W<S> {
     fn new(s: S) -> W<S> {
-        W { s, batch: None, stored: None, clear: None, reload: None, _dir: None }
-    }
-    fn batch(mut self, f: fn(&mut S, Vec<Vec<u8>>) -> R<Vec<u32>>) -> Self {
-        self.batch = Some(f);
-        self
+        W { s, batch: None, getb: None, rmb: None, iter: None, stored: None, clear: None, reload: None, _dir: None }
     }
     fn stored(mut self, f: fn(&S, u32) -> Option<usize>) -> Self {
         self.stored = Some(f);
@@ -124,8 +132,21 @@ impl<S: BlobStore> W<S> {
         Box::new(self)
     }
 }
-fn batch_of<S: BatchBlobStore>(s: &mut S, ds: Vec<Vec<u8>>) -> R<Vec<u32>> {
-    s.put_batch(ds).map_err(|_| ())
+/// the BatchBlobStore trait: put_batch / get_batch / remove_batch
+impl<S: BatchBlobStore> W<S> {
+    fn batching(mut self) -> Self {
+        self.batch = Some(|s, ds| s.put_batch(ds).map_err(|_| ()));
+        self.getb = Some(|s, ids| s.get_batch(ids).map_err(|_| ()));
+        self.rmb = Some(|s, ids| s.remove_batch(ids).map_err(|_| ()));
+        self
+    }
+}
+/// the IterableBlobStore trait: iter_ids
+impl<S: IterableBlobStore> W<S> {
+    fn iterable(mut self) -> Self {
+        self.iter = Some(|s| s.iter_ids().collect());
+        self
+    }
 }
 fn csize_of<S: CompressedBlobStore>(s: &S, id: u32) -> Option<usize> {
     s.compressed_size(id).ok().flatten()
@@ -142,6 +163,15 @@ impl<S: BlobStore> Store for W<S> {
     }
     fn remove(&mut self, id: u32) -> R<()> {
         self.s.remove(id).map_err(|_| ())
+    }
+    fn get_batch(&self, ids: Vec<u32>) -> Option<R<Vec<Option<Vec<u8>>>>> {
+        self.getb.map(|f| f(&self.s, ids))
+    }
+    fn remove_batch(&mut self, ids: Vec<u32>) -> Option<R<usize>> {
+        self.rmb.map(|f| f(&mut self.s, ids))
+    }
+    fn iter_ids(&self) -> Option<Vec<u32>> {
+        self.iter.map(|f| f(&self.s))
     }
     fn contains(&self, id: u32) -> bool {
         self.s.contains(id)
@@ -201,6 +231,15 @@ impl Store for TrieW {
     }
     fn len(&self) -> usize {
         self.s.len()
+    }
+    fn get_batch(&self, ids: Vec<u32>) -> Option<R<Vec<Option<Vec<u8>>>>> {
+        Some(self.s.get_batch(ids).map_err(|_| ()))
+    }
+    fn remove_batch(&mut self, ids: Vec<u32>) -> Option<R<usize>> {
+        Some(self.s.remove_batch(ids).map_err(|_| ()))
+    }
+    fn iter_ids(&self) -> Option<Vec<u32>> {
+        Some(self.s.iter_ids().collect())
     }
     fn put_key(&mut self, k: &[u8], d: &[u8]) -> Option<R<u32>> {
         Some(self.s.put_with_key(k, d).map_err(|_| ()))
@@ -448,25 +487,25 @@ fn make(name: &str, seed: u64) -> Option<Box<dyn Store>> {
     Some(match fam {
         "mem" => {
             let s = if var == "new" { MemoryBlobStore::new() } else { MemoryBlobStore::with_capacity(1) };
-            let mut w = W::new(s).batch(batch_of).reload(mem_reload);
+            let mut w = W::new(s).batching().iterable().reload(mem_reload);
             w.clear = Some(|s| s.clear());
             w.boxed()
         }
         "plain" => {
             let d = TmpDir::new("plain");
-            let mut w = W::new(PlainBlobStore::create_new(&d.0).ok()?).batch(batch_of).reload(plain_reopen);
+            let mut w = W::new(PlainBlobStore::create_new(&d.0).ok()?).batching().iterable().reload(plain_reopen);
             w._dir = Some(d);
             w.boxed()
         }
         "zstd" => match var {
             "mem_l1" | "mem_l3" | "mem_l19" => {
                 let lvl = var[5..].parse::<i32>().ok()?;
-                W::new(ZstdBlobStore::new(MemoryBlobStore::new(), lvl)).batch(batch_of).stored(zstd_inner_size).reload(zstd_mem_reload).boxed()
+                W::new(ZstdBlobStore::new(MemoryBlobStore::new(), lvl)).batching().iterable().stored(zstd_inner_size).reload(zstd_mem_reload).boxed()
             }
             "plain_l3" => {
                 let d = TmpDir::new("zstdplain");
                 let mut w = W::new(ZstdBlobStore::with_default_compression(PlainBlobStore::create_new(&d.0).ok()?))
-                    .batch(batch_of)
+                    .batching().iterable()
                     .stored(zstd_inner_size)
                     .reload(zstd_plain_reopen);
                 w._dir = Some(d);
@@ -504,11 +543,15 @@ fn make(name: &str, seed: u64) -> Option<Box<dyn Store>> {
             }
             W::new(s).boxed()
         }
-        "zerolen" => W::new(ZeroLengthBlobStore::new()).batch(batch_of).reload(zerolen_reload).boxed(),
+        "zerolen" => W::new(ZeroLengthBlobStore::new()).batching().iterable().reload(zerolen_reload).boxed(),
         "trie" | "triekey" => Box::new(TrieW { s: NestLoudsTrieBlobStore::<RS>::new(trie_cfg(var)?).ok()? }),
-        "dictzip" => W::new(dictzip(dictzip_cfg(var)?, seed)?).batch(batch_of).stored(csize_of).boxed(),
+        "dictzip" => {
+            let mut w = W::new(dictzip(dictzip_cfg(var)?, seed)?).batching().stored(csize_of);
+            w.iter = Some(|s| s.iter_ids_vec()); // inherent method (the type does not implement IterableBlobStore)
+            w.boxed()
+        }
         "stack" => match var {
-            "zstd_zstd_mem" => W::new(ZstdBlobStore::new(ZstdBlobStore::new(MemoryBlobStore::new(), 3), 1)).batch(batch_of).stored(zstd_inner_size).boxed(),
+            "zstd_zstd_mem" => W::new(ZstdBlobStore::new(ZstdBlobStore::new(MemoryBlobStore::new(), 3), 1)).batching().iterable().stored(zstd_inner_size).boxed(),
             "zstd_cached_mem" => W::new(ZstdBlobStore::new(CachedBlobStore::new(MemoryBlobStore::new(), PageCacheConfig::balanced()).ok()?, 3))
                 .stored(zstd_inner_size)
                 .boxed(),
@@ -529,7 +572,7 @@ fn make(name: &str, seed: u64) -> Option<Box<dyn Store>> {
                 W::new(s).boxed()
             }
             "cached_dictzip" => W::new(CachedBlobStore::new(dictzip(dz_small(10), seed)?, PageCacheConfig::balanced()).ok()?).boxed(),
-            "zstd_dictzip" => W::new(ZstdBlobStore::new(dictzip(dz_small(10), seed)?, 3)).batch(batch_of).stored(zstd_inner_size).boxed(),
+            "zstd_dictzip" => W::new(ZstdBlobStore::new(dictzip(dz_small(10), seed)?, 3)).batching().stored(zstd_inner_size).boxed(),
             "dict_zstd_plain" => {
                 let d = TmpDir::new("stackplain");
                 let mut s = DictionaryBlobStore::new(ZstdBlobStore::new(PlainBlobStore::create_new(&d.0).ok()?, 3));
@@ -631,20 +674,20 @@ fn build(name: &str, recs: &[Vec<u8>]) -> Result<Box<dyn Store>, String> {
                 "delim_all" => SimpleZipConfig::builder().min_frag_len(2).max_frag_len(64).delimiters((0..=255u8).collect()).build().map_err(e)?,
                 _ => return Err("variant".into()),
             };
-            W::new(SimpleZipBlobStore::build_from(recs, &cfg).map_err(e)?).batch(batch_of).boxed()
+            W::new(SimpleZipBlobStore::build_from(recs, &cfg).map_err(e)?).batching().iterable().boxed()
         }
         "mixedlen" => {
             let s = match var {
                 "auto" => MixedLenBlobStore::build_from(recs).map_err(e)?,
                 _ => MixedLenBlobStore::build_from_with_fixed_len(recs, var[5..].parse().map_err(|_| "fixed")?).map_err(e)?,
             };
-            W::new(s).batch(batch_of).boxed()
+            W::new(s).batching().iterable().boxed()
         }
         "zerolen" => {
             if recs.iter().any(|r| !r.is_empty()) {
                 return Err("zero-length store cannot be built from non-empty records".into());
             }
-            let mut w = W::new(ZeroLengthBlobStore::finish(recs.len())).batch(batch_of);
+            let mut w = W::new(ZeroLengthBlobStore::finish(recs.len())).batching().iterable();
             if saveload {
                 w = w.reload(zerolen_reload);
             }
@@ -652,7 +695,7 @@ fn build(name: &str, recs: &[Vec<u8>]) -> Result<Box<dyn Store>, String> {
         }
         "mem" => {
             let m: HashMap<u32, Vec<u8>> = recs.iter().enumerate().map(|(i, r)| (i as u32, r.clone())).collect();
-            let mut w = W::new(MemoryBlobStore::from_data(m)).batch(batch_of);
+            let mut w = W::new(MemoryBlobStore::from_data(m)).batching().iterable();
             if saveload {
                 w = w.reload(mem_reload);
             }
@@ -682,7 +725,10 @@ enum Op<'a> {
     Put(&'a [u8]),
     PutBatch(&'a [Vec<u8>]),
     Get(u32),
+    GetBatch(&'a [u32]),
     Remove(u32),
+    RemoveBatch(&'a [u32]),
+    IterIds,
     Contains(u32),
     Size(u32),
     Len,
@@ -700,7 +746,10 @@ impl Op<'_> {
             Op::Put(_) => "put",
             Op::PutBatch(_) => "put_batch",
             Op::Get(_) => "get",
+            Op::GetBatch(_) => "get_batch",
             Op::Remove(_) => "remove",
+            Op::RemoveBatch(_) => "remove_batch",
+            Op::IterIds => "iter_ids",
             Op::Contains(_) => "contains",
             Op::Size(_) => "size",
             Op::Len => "len",
@@ -751,7 +800,22 @@ fn exec(s: &mut Box<dyn Store>, op: &Op) -> Option<Value> {
                 e["id"] = json!(id);
                 e
             }
+            Op::GetBatch(ids) => match s.get_batch(ids.to_vec())? {
+                Ok(v) => {
+                    let r: Vec<Value> = v.iter().map(|o| match o {
+                        Some(b) => json!({"some": true, "d": digest(b)}),
+                        None => json!({"some": false, "d": digest(&[])}),
+                    }).collect();
+                    json!({"op":"get_batch","ids":ids,"ok":true,"r":r})
+                }
+                Err(()) => json!({"op":"get_batch","ids":ids,"ok":false,"r":[]}),
+            },
             Op::Remove(id) => json!({"op":"remove","id":id,"ok":s.remove(*id).is_ok()}),
+            Op::RemoveBatch(ids) => match s.remove_batch(ids.to_vec())? {
+                Ok(n) => json!({"op":"remove_batch","ids":ids,"ok":true,"n":n}),
+                Err(()) => json!({"op":"remove_batch","ids":ids,"ok":false,"n":0}),
+            },
+            Op::IterIds => json!({"op":"iter_ids","r":s.iter_ids()?}),
             Op::Contains(id) => json!({"op":"contains","id":id,"r":s.contains(*id)}),
             Op::Size(id) => {
                 let mut e = size_json(&s.size(*id));
@@ -803,7 +867,7 @@ fn exec(s: &mut Box<dyn Store>, op: &Op) -> Option<Value> {
 /// the contract has no action for
 fn ids_fit(e: &Value) -> bool {
     let ok = |v: &Value| v.as_u64().map_or(true, |x| x <= i32::MAX as u64);
-    ok(&e["id"]) && e["ids"].as_array().map_or(true, |a| a.iter().all(ok))
+    ok(&e["id"]) && e["ids"].as_array().map_or(true, |a| a.iter().all(ok)) && (e["op"] != "iter_ids" || e["r"].as_array().map_or(true, |a| a.iter().all(ok)))
 }
 
 /// per-subject counters for the evidence
@@ -821,6 +885,10 @@ struct Counters {
     build_refused: usize,
     stored_known: usize,
     stored_differs: usize,
+    get_batch: usize,
+    remove_batch_ok: usize,
+    remove_batch_refused: usize,
+    iter_ids: usize,
 }
 impl Counters {
     fn note(&mut self, e: &Value) {
@@ -852,6 +920,18 @@ impl Counters {
                     self.get_ok += 1
                 }
             }
+            "get_batch" => {
+                self.get_batch += 1;
+                self.get_ok += e["r"].as_array().map_or(0, |a| a.iter().filter(|g| g["some"] == json!(true)).count());
+            }
+            "remove_batch" => {
+                if ok {
+                    self.remove_batch_ok += 1
+                } else {
+                    self.remove_batch_refused += 1
+                }
+            }
+            "iter_ids" => self.iter_ids += 1,
             "probe" => self.get_ok += e["get"].as_array().map_or(0, |a| a.iter().filter(|g| g["ok"] == json!(true)).count()),
             "build" => {
                 if ok {
@@ -867,7 +947,8 @@ impl Counters {
     fn json(&self) -> Value {
         json!({"events":self.events,"runs":self.runs,"panics":self.panics,"put_ok":self.put_ok,"put_refused":self.put_refused,
             "remove_ok":self.remove_ok,"remove_refused":self.remove_refused,"get_ok":self.get_ok,"build_ok":self.build_ok,
-            "build_refused":self.build_refused,"stored_size_known":self.stored_known,"stored_size_differs":self.stored_differs})
+            "build_refused":self.build_refused,"stored_size_known":self.stored_known,"stored_size_differs":self.stored_differs,
+            "get_batch":self.get_batch,"remove_batch_ok":self.remove_batch_ok,"remove_batch_refused":self.remove_batch_refused,"iter_ids":self.iter_ids})
     }
 }
 
@@ -926,34 +1007,63 @@ fn random_run(tr: &mut Tracer, c: &mut Counters, a: &Args, name: &str, regime: &
                 *rng.pick(issued)
             }
         };
+        let pick_ids = |rng: &mut Rng, issued: &[u32]| -> Vec<u32> {
+            let n = rng.range(0, 4) as usize;
+            (0..n).map(|_| pick_id(rng, issued)).collect()
+        };
         let k = rng.below(100);
-        let ev = match k {
+        let evs: Vec<Option<Value>> = match k {
             0..=29 => {
                 let d = payload(fams, &mut rng);
-                exec(&mut s, &Op::Put(&d))
+                vec![exec(&mut s, &Op::Put(&d))]
             }
             30..=37 => {
                 let n = rng.range(0, 4) as usize;
                 let ds: Vec<Vec<u8>> = (0..n).map(|_| payload(fams, &mut rng)).collect();
-                exec(&mut s, &Op::PutBatch(&ds))
+                vec![exec(&mut s, &Op::PutBatch(&ds))]
             }
-            38..=55 => exec(&mut s, &Op::Remove(pick_id(&mut rng, &issued))),
-            56..=67 => exec(&mut s, &Op::Get(pick_id(&mut rng, &issued))),
-            68..=73 => exec(&mut s, &Op::Contains(pick_id(&mut rng, &issued))),
-            74..=79 => exec(&mut s, &Op::Size(pick_id(&mut rng, &issued))),
-            80..=84 => exec(&mut s, &Op::Len),
-            85..=86 => exec(&mut s, &Op::SaveLoad),
-            87 => exec(&mut s, &Op::Clear),
-            _ => exec(&mut s, &Op::Probe(&probe_ids(&issued))),
+            38..=49 => vec![exec(&mut s, &Op::Remove(pick_id(&mut rng, &issued)))],
+            50..=54 => vec![exec(&mut s, &Op::RemoveBatch(&pick_ids(&mut rng, &issued)))],
+            55..=63 => vec![exec(&mut s, &Op::Get(pick_id(&mut rng, &issued)))],
+            64..=67 => vec![exec(&mut s, &Op::GetBatch(&pick_ids(&mut rng, &issued)))],
+            68..=71 => vec![exec(&mut s, &Op::Contains(pick_id(&mut rng, &issued)))],
+            72..=73 => vec![exec(&mut s, &Op::IterIds)],
+            74..=78 => vec![exec(&mut s, &Op::Size(pick_id(&mut rng, &issued)))],
+            79..=82 => vec![exec(&mut s, &Op::Len)],
+            83..=85 if !issued.is_empty() => {
+                // deliberately placed: read a record (single and batch read paths), remove it through the
+                // batch path, read it again through both paths -- a store that caches what it has read
+                // must not answer from the cache after the removal
+                let a_id = issued[issued.len() - 1 - rng.below(issued.len().min(3) as u64) as usize];
+                let b_id = pick_id(&mut rng, &issued);
+                let both = [a_id, b_id];
+                let first: Vec<u32> = if rng.chance(1, 2) { vec![a_id] } else { vec![b_id, a_id] };
+                let mut v = vec![];
+                if rng.chance(2, 3) {
+                    v.push(exec(&mut s, &Op::Get(a_id)));
+                }
+                if rng.chance(1, 2) {
+                    v.push(exec(&mut s, &Op::GetBatch(&both)));
+                }
+                v.push(exec(&mut s, &Op::RemoveBatch(&first)));
+                v.push(exec(&mut s, &Op::Get(a_id)));
+                v.push(exec(&mut s, &Op::GetBatch(&both)));
+                v.push(exec(&mut s, &Op::Contains(a_id)));
+                v
+            }
+            83..=85 => vec![exec(&mut s, &Op::Len)],
+            86 => vec![exec(&mut s, &Op::SaveLoad)],
+            87 => vec![exec(&mut s, &Op::Clear)],
+            _ => vec![exec(&mut s, &Op::Probe(&probe_ids(&issued)))],
         };
-        if let Some(e) = ev {
+        for e in evs.into_iter().flatten() {
             if e["ok"] == json!(true) {
                 if let Some(id) = e["id"].as_u64() {
                     if e["op"] == "put" && !issued.contains(&(id as u32)) {
                         issued.push(id as u32);
                     }
                 }
-                if let Some(ids) = e["ids"].as_array() {
+                if let Some(ids) = e["ids"].as_array().filter(|_| e["op"] == "put_batch") {
                     for id in ids.iter().filter_map(|x| x.as_u64()) {
                         if !issued.contains(&(id as u32)) {
                             issued.push(id as u32);
@@ -961,11 +1071,16 @@ fn random_run(tr: &mut Tracer, c: &mut Counters, a: &Args, name: &str, regime: &
                     }
                 }
             }
-            alive = emit(tr, c, e);
+            if alive {
+                alive = emit(tr, c, e);
+            }
         }
         if !alive {
             break;
         }
+    }
+    if alive {
+        alive = exec(&mut s, &Op::IterIds).map_or(true, |e| emit(tr, c, e));
     }
     if alive {
         if let Some(e) = exec(&mut s, &Op::Probe(&probe_ids(&issued))) {
@@ -1010,17 +1125,49 @@ fn fill_run(tr: &mut Tracer, c: &mut Counters, a: &Args, name: &str, n: usize, f
         alive = exec(&mut s, &Op::Probe(&probe_ids(&issued))).map_or(true, |e| emit(tr, c, e));
     }
     if alive {
-        for (j, id) in issued.clone().iter().enumerate() {
-            if j % 3 == 1 && alive {
+        alive = exec(&mut s, &Op::GetBatch(&probe_ids(&issued))).map_or(true, |e| emit(tr, c, e));
+    }
+    if alive {
+        alive = exec(&mut s, &Op::IterIds).map_or(true, |e| emit(tr, c, e));
+    }
+    if alive {
+        // every third record goes (all of them have just been read): the first half one by one, the rest
+        // through remove_batch in chunks of up to four, where the store offers it
+        let victims: Vec<u32> = issued.iter().enumerate().filter(|(j, _)| j % 3 == 1).map(|(_, id)| *id).collect();
+        let (single, batched) = victims.split_at(victims.len() / 2);
+        for id in single {
+            if alive {
                 alive = exec(&mut s, &Op::Remove(*id)).map_or(true, |e| emit(tr, c, e));
             }
         }
+        for chunk in batched.chunks(4) {
+            if !alive {
+                break;
+            }
+            match exec(&mut s, &Op::RemoveBatch(chunk)) {
+                Some(e) => alive = emit(tr, c, e),
+                None => {
+                    for id in chunk {
+                        if alive {
+                            alive = exec(&mut s, &Op::Remove(*id)).map_or(true, |e| emit(tr, c, e));
+                        }
+                    }
+                }
+            }
+        }
+    }
+    if alive {
+        // before and after save -> load / reopen
+        alive = exec(&mut s, &Op::GetBatch(&probe_ids(&issued))).map_or(true, |e| emit(tr, c, e));
     }
     if alive {
         alive = exec(&mut s, &Op::SaveLoad).map_or(true, |e| emit(tr, c, e));
     }
     if alive {
         alive = exec(&mut s, &Op::Probe(&probe_ids(&issued))).map_or(true, |e| emit(tr, c, e));
+    }
+    if alive {
+        alive = exec(&mut s, &Op::IterIds).map_or(true, |e| emit(tr, c, e));
     }
     if !alive {
         std::mem::forget(s);
@@ -1168,8 +1315,19 @@ fn bulk_run(tr: &mut Tracer, c: &mut Counters, a: &Args, name: &str, profile: &s
             alive = emit(tr, c, e);
         }
     }
+    if alive {
+        alive = exec(&mut s, &Op::IterIds).map_or(true, |e| emit(tr, c, e));
+    }
+    if alive {
+        // batch read: block boundaries, first and last ids, ids never handed out
+        let some: Vec<u32> = more.iter().copied().filter(|&i| i as usize + 3 >= n || i < 3 || (i + 1) % 64 < 3).collect();
+        alive = exec(&mut s, &Op::GetBatch(&some)).map_or(true, |e| emit(tr, c, e));
+    }
     if alive && n > 0 {
         alive = exec(&mut s, &Op::Remove((n / 2) as u32)).map_or(true, |e| emit(tr, c, e));
+    }
+    if alive && n > 1 {
+        alive = exec(&mut s, &Op::RemoveBatch(&[(n / 2) as u32 + 1, 0, NEVER[1]])).map_or(true, |e| emit(tr, c, e));
     }
     let mut reloaded = false;
     if alive {
@@ -1452,6 +1610,7 @@ fn replay_subject(a: &Args, tr: &mut Tracer, name: &str, idx: usize, behaviours:
             None => continue,
         };
         nb += 1; // index among the behaviours this subject executes
+        let via_batch = nb % 2 == 1;
         for (ci, conc) in concs.iter().enumerate() {
             // the 64 KiB concretisation on a seeded tenth of the behaviours
             if (*conc == "big" || (rare_empty && *conc == "tiny")) && nb % (if rare_empty { 30 } else { 10 }) != 0 {
@@ -1484,7 +1643,9 @@ fn replay_subject(a: &Args, tr: &mut Tracer, name: &str, idx: usize, behaviours:
                     "remove" => {
                         let i = st["i"].as_u64().unwrap_or(0) as usize;
                         let id = if i == 0 { NEVER[1] } else { got_ids.get(i - 1).copied().flatten().unwrap_or(NEVER[2]) };
-                        exec(&mut s, &Op::Remove(id))
+                        // the abstract remove(i) is executed through remove_batch([id]) on every other
+                        // behaviour where the store offers it (same contract: RemoveBatch(<<id>>) = Remove(id))
+                        if via_batch { exec(&mut s, &Op::RemoveBatch(&[id])).or_else(|| exec(&mut s, &Op::Remove(id))) } else { exec(&mut s, &Op::Remove(id)) }
                     }
                     _ => None,
                 };
@@ -1560,7 +1721,25 @@ fn replay_subject(a: &Args, tr: &mut Tracer, name: &str, idx: usize, behaviours:
                 if !same {
                     differs = true;
                 }
+                // the batch read path must give the same answers as the single reads just compared
+                let gb = if via_batch { exec(&mut s, &Op::GetBatch(&pids)) } else { None };
+                if let Some(g) = &gb {
+                    let agree = g["ok"] == json!(true)
+                        && (0..pids.len()).all(|i| g["r"][i]["some"] == p["get"][i]["ok"] && (p["get"][i]["ok"] == json!(false) || g["r"][i]["d"] == p["get"][i]["d"]));
+                    if !agree {
+                        differs = true;
+                    }
+                }
                 evs.push(p);
+                if let Some(g) = gb {
+                    if g["op"] == "panic" {
+                        dead = true;
+                        differs = true;
+                        evs.push(g);
+                        break;
+                    }
+                    evs.push(g);
+                }
             }
             if dead {
                 std::mem::forget(s);
@@ -1592,7 +1771,7 @@ fn replay_subject(a: &Args, tr: &mut Tracer, name: &str, idx: usize, behaviours:
                 if differs {
                     written += 1;
                 }
-                tr.reset("blobstore", name, json!({"fam":fam_of(name),"variant":variant_of(name),"regime":"b2","conc":conc,"behaviour":bi,"b2":true,"differs":differs,"keyed":false}));
+                tr.reset("blobstore", name, json!({"fam":fam_of(name),"variant":variant_of(name),"regime":"b2","conc":conc,"behaviour":bi,"b2":true,"via_batch":via_batch,"differs":differs,"keyed":false}));
                 c.runs += 1;
                 for e in evs {
                     c.note(&e);
